@@ -1685,7 +1685,7 @@ func startBgLoad(dir, name string, opts *redka.Options, total int, expired func(
 		cancel()
 	}
 	b.ready = time.Now()
-	if oneHandle {
+	if oneHandle && load {
 		// a client transaction is open on the handle when the tick comes (60 s after Open): the
 		// reclamation has to wait for the one connection and then run on it
 		b.extra++
@@ -1850,6 +1850,12 @@ func runC20(seed int64, n int, long bool) {
 		fail("harness", err.Error(), nil)
 		return
 	}
+	// ... and one that nobody touches between its population and the tick (an idle minute)
+	bgF, err := startBgLoad(dir, "opendb-idle-handle", nil, 300, func(i int) bool { return i%2 == 0 }, false)
+	if err != nil {
+		fail("harness", err.Error(), nil)
+		return
+	}
 	// the reclamation step itself (what the background goroutine calls) on mixed populations
 	for round := 0; round < n && len(sum.Failures) == 0; round++ {
 		var x *hx.Exec
@@ -1905,6 +1911,7 @@ func runC20(seed int64, n int, long bool) {
 	bgA.finish(limit)
 	bgB.finish(limit)
 	bgE.finish(limit)
+	bgF.finish(limit)
 	if !long || len(sum.Failures) > 0 {
 		return
 	}
